@@ -138,6 +138,10 @@ def judgeSMServer (d : DictRt) (i : Intern) (cfgK : Nat) (localTok regsTok segsT
   let env : SMEnv := { cfg, apps := supportedApps, appOK := appOKDefault, ips, shortCE := sCE, shortDW := sDW, regs }
   let segs := (segsTok.splitOn "|").filterMap fromHex
   let shortOf := fun (m : Msg) => (d.findCommand m.hdr.app m.hdr.cmd).map (·.short)
+  -- KEPT:/META: tokens report on what the application kept; they are judged on their own below
+  let keptBad := impl.any (·.startsWith "KEPT:changed")
+  let metaBad := impl.any (·.startsWith "META:changed")
+  let impl := impl.filter (fun t => ¬ t.startsWith "KEPT:" ∧ ¬ t.startsWith "META:")
   let implEvs := impl.filter (fun t => ¬ t.startsWith "end=")
   -- state: conn state, model events, dead, tags, remaining impl events, first failure
   let run := segs.foldl (fun (acc : ConnSt × List String × Bool × List String × List String × Option String) seg =>
@@ -180,6 +184,8 @@ def judgeSMServer (d : DictRt) (i : Intern) (cfgK : Nat) (localTok regsTok segsT
       else if rest.any (·.startsWith "A") then ["C10:unexpected-application-handler"]
       else if rest.any (·.startsWith "W:") then ["C11:unexpected-answer-written"]
       else ["C11:connection-end-state-differs"]
+  let fails := fails ++ (if keptBad then ["C06:message-kept-by-the-application-changed-after-later-reads"] else []) ++
+    (if metaBad then ["C11:metadata-of-an-earlier-connection-changed"] else [])
   (i3, { model := out, fails := fails, tags := tags.eraseDups.take 12 })
 
 end DV.Drv
